@@ -267,3 +267,75 @@ pub fn targets() -> Vec<(&'static str, &'static str, Entry, usize, u64)> {
         ("uot_stream", "C20", p1 as Entry, 512, 1_000_000),
     ]
 }
+
+/// Write a small seed corpus for every target (valid inputs built with the reference encoders).
+pub fn gen_corpus(dir: &std::path::Path) {
+    use crate::reference::codec::{self as rc, RFrame};
+    let w = |target: &str, name: &str, data: Vec<u8>| {
+        let d = dir.join(target);
+        let _ = std::fs::create_dir_all(&d);
+        let _ = std::fs::write(d.join(name), data);
+    };
+    // frames
+    let frames = vec![
+        RFrame::new(rc::SETTINGS, 0, b"v=2\nclient=ref\npadding-md5=0123456789abcdef0123456789abcdef".to_vec()),
+        RFrame::ctl(rc::SYN, 2),
+        RFrame::new(rc::PSH, 2, vec![1, 10, 0, 0, 1, 0, 80]),
+        RFrame::new(rc::PSH, 2, b"hello world".to_vec()),
+        RFrame::new(rc::WASTE, 0, vec![0; 30]),
+        RFrame::ctl(rc::HEART_REQ, 0),
+        RFrame::ctl(rc::HEART_RESP, 0),
+        RFrame::ctl(rc::SYNACK, 2),
+        RFrame::new(rc::SYNACK, 3, b"refused".to_vec()),
+        RFrame::new(rc::SERVER_SETTINGS, 0, b"v=2".to_vec()),
+        RFrame::new(rc::UPDATE_PADDING, 0, b"stop=3\n0=10-10\n1=100-200\n2=300-400,c,500-600".to_vec()),
+        RFrame::ctl(rc::FIN, 2),
+        RFrame::new(rc::ALERT, 0, b"bye".to_vec()),
+    ];
+    let all = rc::encode_all(&frames);
+    let mut v = vec![2u8, 0x10, 0x00, 0x80, 0x00];
+    v.extend_from_slice(&all);
+    w("codec_diff", "frames-two-cuts", v);
+    w("codec_diff", "one-frame", [vec![0u8], rc::encode(&frames[3])].concat());
+    for (i, f) in frames.iter().enumerate() {
+        let mut head = vec![1u8, 2, 3, 1];
+        head.extend_from_slice(&rc::encode(f));
+        w("session_bytes_server", &format!("frame{i}"), head.clone());
+        w("session_bytes_client", &format!("frame{i}"), head);
+    }
+    let mut head = vec![0u8, 3];
+    head.extend_from_slice(&all);
+    w("session_bytes_server", "all", head.clone());
+    w("session_bytes_client", "all", head);
+    // schemes
+    for (i, s) in [anytls_rs::padding::DEFAULT_PADDING_SCHEME, "stop=0", "stop=3\n1=70000-70000\n2=c,5-9,c,2147483648-4294967295", "stop=100\r\n1=7-8,c,9-9\r\n1=30-31"].iter().enumerate() {
+        let mut v = vec![4u8, 0, 1, 2, 1, 0, 200, 0, 0, 2, 3, 0, 5, 0, 0, 4, 0, 0, 0, 7];
+        v.extend_from_slice(s.as_bytes());
+        w("scheme_wire", &format!("scheme{i}"), v);
+    }
+    // preambles
+    {
+        use sha2::{Digest, Sha256};
+        let h: [u8; 32] = Sha256::digest(b"fuzz-password").into();
+        for (i, l) in [0u16, 5, 300].iter().enumerate() {
+            let mut v = vec![1u8, 0, 2, 1];
+            v.extend_from_slice(&h);
+            v.extend_from_slice(&l.to_be_bytes());
+            v.extend(std::iter::repeat_n(0u8, *l as usize));
+            v.extend_from_slice(&rc::encode(&frames[0]));
+            w("auth_preamble", &format!("valid{i}"), v);
+        }
+    }
+    // http: structured bytes
+    for i in 0u8..8 {
+        let v: Vec<u8> = (0..64u8).map(|k| k.wrapping_mul(i + 3).wrapping_add(i)).collect();
+        w("http_rewrite", &format!("seed{i}"), v);
+    }
+    // parsers
+    w("socks_addr_stream", "v4", vec![1, 0, 3, 1, 10, 0, 0, 1, 0, 80, 9, 9]);
+    w("socks_addr_stream", "name", [vec![0u8, 3, 9], b"localhost".to_vec(), vec![1, 187]].concat());
+    w("socks_addr_stream", "v6", [vec![2u8, 0, 5, 0, 9, 4], vec![0u8; 15], vec![1, 0, 53]].concat());
+    w("uot_stream", "req-v4", vec![0, 0, 1, 1, 127, 0, 0, 1, 0, 53]);
+    w("uot_stream", "pkt", vec![1, 0, 0, 5, b'h', b'e', b'l', b'l', b'o', 0, 1, b'x']);
+    println!("corpus written to {}", dir.display());
+}
